@@ -1,7 +1,7 @@
 import logging
 from typing import Optional
 
-from dliswriter.utils.internal.struct_writer import write_struct_ascii
+from dliswriter.utils.internal.struct_writer import write_struct_ident
 from dliswriter.utils.internal.internal_enums import EFLRType
 from dliswriter.logical_record.core.logical_record import LogicalRecord
 from dliswriter.logical_record.core.eflr.eflr_item import EFLRItem
@@ -29,7 +29,7 @@ class EFLRSet(LogicalRecord):
         super().__init__()
 
         self.set_name = set_name
-        self._set_type_struct = write_struct_ascii(self.set_type)  # used in the header
+        self._set_type_struct = write_struct_ident(self.set_type)  # used in the header
         self._eflr_item_list: list[EFLRItem] = []  # instances of EFLRItem registered with this EFLRSet instance
 
     def __str__(self) -> str:
@@ -41,7 +41,7 @@ class EFLRSet(LogicalRecord):
         """Create bytes describing the set of this EFLR, using set type (class attr) and name (specified at init)."""
 
         if self.set_name:
-            _bytes = b'\xf8' + self._set_type_struct + write_struct_ascii(self.set_name)
+            _bytes = b'\xf8' + self._set_type_struct + write_struct_ident(self.set_name)
         else:
             _bytes = b'\xf0' + self._set_type_struct
 
